@@ -26,6 +26,8 @@ fn replay(file: &str) -> ! {
         "miner-life/c15-poor" => replay_with(&c15::scenario_regime(tier, true).0, &v),
         "vesting-component" => replay_with(&c14::scenario_component(tier), &v),
         "withdrawals" => replay_with(&c14::scenario_actor(tier), &v),
+        "power-only" => replay_with(&c02::poweronly::PowerOnly { miners: 5 }, &v),
+        "partition-component" => replay_with(&c04::component::scenario(tier), &v),
         "multisig" => replay_with(&c12::scenario(tier).0, &v),
         s if s.starts_with("c01") => c01::replay(&v),
         s if s.starts_with("c09") => c09::replay(&v),
